@@ -52,7 +52,8 @@ def run_one(name, checks):
             verdict = "caught" if (q.returncode != 0 and viol) else "missed"
             with_input = [l for l in viol if not l.rstrip().endswith("no-failing-input-found")]
             kind = "failing input replayed" if with_input else ("no-failing-input-found" if viol else "")
-            meta.setdefault("checks", {})[c] = {"verdict": verdict, "how": kind, "first_line": ((with_input or viol)[0] if viol else (lines[-1] if lines else q.stdout[-200:]))[:400],
+            seed = os.environ.get("VERIF_SEED", "1")
+            meta.setdefault("checks" if seed == "1" else "checks_seed" + seed, {})[c] = {"verdict": verdict, "how": kind, "first_line": ((with_input or viol)[0] if viol else (lines[-1] if lines else q.stdout[-200:]))[:400],
                                                   "violations": len(viol), "wall_s": round(time.time() - t0, 1), "seed": os.environ.get("VERIF_SEED", "1")}
             print("%s vs %s: %s %s" % (name, c, verdict, kind))
     finally:
@@ -78,10 +79,13 @@ def table():
         m = json.load(open(mp))
         own = m.get("checks", {}).get(m.get("property", ""), {})
         others = ", ".join("%s:%s" % (k, v["verdict"]) for k, v in sorted(m.get("checks", {}).items()) if isinstance(v, dict) and k != m.get("property"))
+        s2 = m.get("checks_seed2", {}).get(m.get("property", ""), {})
+        if s2:
+            others = (others + "; " if others else "") + "VERIF_SEED=2: %s" % s2.get("verdict")
         rows.append("| %s | %s | %s | %s | %s | %s |" % (name, m.get("property", ""), m.get("change", "")[:110].replace("|", "/"), m.get("trigger", "")[:110].replace("|", "/"),
                                                       ("%s (%s)" % (own.get("verdict", "not run"), own.get("how", ""))) if own else "not run", others))
     txt = ("# Seeded breaking changes\n\nEach directory holds `patch.diff` (applies to /repo's pinned+repaired tree), the author's demonstration and `meta.json`.\n"
-           "Authors were fresh sub-agents given only the property text and a scratch worktree. Verdicts are from `tools/seeded.py` (quick tier, seed 1).\n\n"
+           "Authors were fresh sub-agents given only the property text and a scratch worktree. Verdicts are from `tools/seeded.py` (quick tier, seed 1; the last column adds the verdict of a full run under VERIF_SEED=2).\n\n"
            "| change | property | what was changed | what it needs to manifest | own check | other checks |\n|---|---|---|---|---|---|\n" + "\n".join(rows) + "\n")
     open(os.path.join(SEEDED, "README.md"), "w").write(txt)
     print(txt)
